@@ -352,6 +352,11 @@ func runLogin(line string, timeout time.Duration) (*loginRun, bool) {
 		r.outcome = "error"
 		r.errText = lerr.Error()
 	}
+	// an announcement that stands behind the accepting DONE in the same packet is applied by the reader
+	// goroutine while Login is already returning: give it a moment before the connection is taken down
+	for i := 0; i < 300 && r.outcome == "success" && packSize != 0 && conn.PacketSize() != packSize; i++ {
+		time.Sleep(time.Millisecond)
+	}
 	r.wire = mc.written()
 	r.sent = countEOM(r.wire)
 	mc.end()
@@ -493,6 +498,11 @@ func loginImpl(line string) string {
 			if !bytes.Contains(queueBytes(q), r.capMask) {
 				verdict = "after success the capability set is the one the server returned"
 			}
+		}
+		// an announcement that stands behind the accepting DONE in the same packet is applied by the reader
+		// goroutine while Login is already returning: give it a moment
+		for i := 0; i < 300 && r.packSize != 0 && r.conn.PacketSize() != r.packSize; i++ {
+			time.Sleep(time.Millisecond)
 		}
 		if r.packSize != 0 && r.conn.PacketSize() != r.packSize {
 			verdict = "after success the packet size is the one the server announced"
